@@ -345,7 +345,7 @@ Proof.
   intros z mi Hz.
   pose proof (proj2 (f_of_Z_valid z Hz)) as Hfin.
   pose proof (from_float_of_Z z Hz) as Hff.
-  unfold minmax_emit. rewrite Hfin, Hff.
+  unfold minmax_emit. rewrite Hff.
   assert (Hm : match mi with Some i => vmin (VInt i) (VInt z) | None => VInt z end =
                VInt (match mi with Some i => Z.min i z | None => z end)).
   { destruct mi as [i|]; [|reflexivity]. unfold vmin. cbn [vcmp].
@@ -358,7 +358,7 @@ Proof.
   intros z mi Hz.
   pose proof (proj2 (f_of_Z_valid z Hz)) as Hfin.
   pose proof (from_float_of_Z z Hz) as Hff.
-  unfold minmax_emit. rewrite Hfin, Hff.
+  unfold minmax_emit. rewrite Hff.
   assert (Hm : match mi with Some i => vmax (VInt i) (VInt z) | None => VInt z end =
                VInt (match mi with Some i => Z.max i z | None => z end)).
   { destruct mi as [i|]; [|reflexivity]. unfold vmax. cbn [vcmp].
